@@ -16,7 +16,9 @@ def run(r):
     by, hits = lexcommon.classify(res)
     k2_specs, other = 0, []
     for m in by["lex.bisim"]:
-        if "K2 flagged row labelled by greedy rule" in m[3]:
+        # both faces of K2: the state-level non-greedy flag (a) sits on a row labelled by a greedy rule, or (b) stops a
+        # still-viable greedy rule that shares the prefix when the non-greedy rule accepts
+        if "K2 flagged row labelled by greedy rule" in m[3] or ("non-greedy flag cuts off rule" in m[3] and "(greedy)" in m[3]):
             k2_specs += 1
         else:
             other.append(m)
